@@ -34,19 +34,29 @@ def tasks(tier):
 
 
 def contexts(tier):
+    """(marker, CBC neighbour, ETM neighbour, size-bearing neighbours).  With the last flag the peer also offers a 1024-bit RSA
+    key, a certificate signed by a 1024-bit CA and a 1024-bit group-exchange modulus, all of which earn size notes of their own."""
     ctx = []
     for marker in (False, True):
         for cbc in (False, True):
             for etm in (False, True):
-                ctx.append((marker, cbc, etm))
+                ctx.append((marker, cbc, etm, False))
     if tier == 'quick':
-        ctx = [(False, False, False), (False, True, True), (True, True, True), (True, False, True)]
+        ctx = [(False, False, False, False), (False, True, True, False), (True, True, True, False), (True, False, True, False)]
+    ctx += [(False, False, False, True), (True, True, True, True)]
     return ctx
 
 
+SIZE_NEIGH_KEYS = ['rsa-sha2-512', 'ssh-rsa-cert-v01@openssh.com']
+SIZE_NEIGH_KEX = ['curve25519-sha256', 'diffie-hellman-group-exchange-sha256']
+
+
 def build_lists(cat, inst, pos, ctx, role):
-    marker, cbc, etm = ctx
+    marker, cbc, etm, small = ctx
     lists = {c: list(NEIGH[c]) for c in NEIGH}
+    if small:
+        lists['key'] = SIZE_NEIGH_KEYS + lists['key']
+        lists['kex'] = SIZE_NEIGH_KEX + lists['kex']
     if cbc:
         lists['enc'].append('aes128-cbc')
     if etm:
@@ -67,7 +77,7 @@ def build_lists(cat, inst, pos, ctx, role):
     return lists
 
 
-def ctx_key(cat, inst, lists, role):
+def ctx_key(cat, inst, lists, role, small=False):
     """The documented context that may legitimately influence the notes of `inst`."""
     marker = T.marker_present(lists['kex'], role == 'client')
     if cat == 'enc' and T.is_chacha(inst):
@@ -76,17 +86,24 @@ def ctx_key(cat, inst, lists, role):
         return ('cbc', marker, any(T.is_etm(m) for m in lists['mac']))
     if cat == 'mac' and T.is_etm(inst):
         return ('etm', marker, any(T.is_cbc(c) for c in lists['enc']))
+    if small and cat == 'key' and ('rsa' in inst):
+        return ('measured-rsa-size', 1024)       # RSA-family names and RSA certificates share the measured key / CA
+    if small and cat == 'kex' and inst.startswith('diffie-hellman-group-exchange'):
+        return ('measured-modulus', 1024)
+    if small and cat == 'key' and '-cert-' in inst:
+        return ('measured-ca-size', 1024)
     return ()
 
 
-def observe(cat, inst, lists, role, fmt):
+def observe(cat, inst, lists, role, fmt, small=False):
     opts = ['-n'] + (['-j'] if fmt == 'json' else [])
     if role == 'server':
-        srv = peer.Server(kex=lists['kex'], key=lists['key'], enc=lists['enc'], mac=lists['mac'], banner=b'SSH-2.0-OpenSSH_9.6',
-                          host_keys=peer.standard_host_keys(lists['key'], rsa_bits=3072))
+        srv = peer.Server(kex=lists['kex'], key=lists['key'], enc=lists['enc'], mac=lists['mac'], banner=b'SSH-2.0-dropbear_2022.83',
+                          host_keys=peer.standard_host_keys(lists['key'], rsa_bits=1024 if small else 3072, ca='rsa', ca_bits=1024 if small else 3072),
+                          gex=peer.GexPolicy([1024], peer.STRICT) if small else None)
         res = H.audit(srv, opts=opts + ['--skip-rate-test'])
     else:
-        cli = peer.Client(kex=lists['kex'], key=lists['key'], enc=lists['enc'], mac=lists['mac'], banner=b'SSH-2.0-OpenSSH_9.6')
+        cli = peer.Client(kex=lists['kex'], key=lists['key'], enc=lists['enc'], mac=lists['mac'], banner=b'SSH-2.0-dropbear_2022.83')
         res = H.client_audit(cli, opts=opts)
     if res.status not in (0, 2, 3) or res.hang or res.exc:
         return res, None
@@ -128,10 +145,12 @@ def check_task(task, st, ctxs):
     for ctx in ctxs:
         for pos in ('alone', 'first', 'middle', 'last'):
             for role in ('server', 'client'):
+                if ctx[3] and role == 'client':
+                    continue        # nothing is measured in a client audit
                 lists = build_lists(cat, inst, pos, ctx, role)
-                key = ctx_key(cat, inst, lists, role)
+                key = ctx_key(cat, inst, lists, role, ctx[3])
                 for fmt in ('text', 'json'):
-                    res, notes = observe(cat, inst, lists, role, fmt)
+                    res, notes = observe(cat, inst, lists, role, fmt, ctx[3])
                     st.execution(res.world, outcome=(res.status, fmt, role), root=(task, ctx, pos, role, fmt),
                                  nontrivial=(cat, inst, key, pos, role, fmt))
                     if notes is None:
@@ -203,7 +222,8 @@ def run(tier, seed):
     return evidence.finish(
         PID, tier, seed, st, t0,
         rule='every database name (gss-* entries instantiated with 3 base64 suffixes) and one unknown name per category x position '
-             '{alone, first, middle, last} x %d neighbour contexts (marker x CBC x ETM) x role x {text,json}, plus --lookup of every name; '
+             '{alone, first, middle, last} x %d neighbour contexts (marker x CBC x ETM, plus contexts whose neighbours earn measured-size notes: '
+             '1024-bit RSA key, certificate with 1024-bit CA, 1024-bit GEX modulus) x role x {text,json}, plus --lookup of every name; '
              'non-trivial = distinct (category, name, documented context, position, role, format)' % len(ctxs),
         assumptions=['documented context = Terrapin context (refmodels/terrapin.py) and measured sizes (held fixed here)',
                      'notes compared as multisets'],
